@@ -139,7 +139,7 @@ class LeanSide:
             r = self._lake(["build", "driver"])
             self.driver_ok = r.returncode == 0 and os.path.exists(DRIVER)
             out = r.stdout + r.stderr
-            r2 = self._lake(["build", f"XsdataModel.Props.{self.prop}"])
+            r2 = self._lake(["build"] + [f"XsdataModel.Props.{os.path.basename(p)[:-5]}" for p in self.props_files()])
             out2 = r2.stdout + r2.stderr
             self.build_ok = r2.returncode == 0
             self.build_output = out + "\n" + out2
@@ -173,16 +173,23 @@ class LeanSide:
             names.append(name or f"{os.path.relpath(full, LEAN)}:{line}")
         return sorted(set(names))
 
+    def props_files(self):
+        d = os.path.join(LEAN, "XsdataModel", "Props")
+        return sorted(
+            os.path.join(d, f) for f in os.listdir(d) if re.fullmatch(re.escape(self.prop) + r"[A-Za-z]*\.lean", f)
+        )
+
     def _scan_props(self):
-        try:
-            src = open(self.props_file()).read()
-        except OSError:
-            return
-        src_nc = strip_comments(src)
-        ns = re.search(r"^namespace\s+(\S+)", src_nc, re.M)
-        self.ns = ns.group(1) if ns else ""
-        self.theorems = re.findall(r"^theorem\s+([^\s:({\[]+)", src_nc, re.M)
-        self.examples = len(re.findall(r"^example\b", src_nc, re.M))
+        self.theorems = []
+        self.examples = 0
+        self.ns = ""
+        for path in self.props_files():
+            src_nc = strip_comments(open(path).read())
+            ns = re.search(r"^namespace\s+(\S+)", src_nc, re.M)
+            nsname = ns.group(1) if ns else ""
+            for t in re.findall(r"^theorem\s+([^\s:({\[]+)", src_nc, re.M):
+                self.theorems.append(f"{nsname}.{t}" if nsname else t)
+            self.examples += len(re.findall(r"^example\b", src_nc, re.M))
         # forbidden tokens anywhere in the library
         for root, _, files in os.walk(os.path.join(LEAN, "XsdataModel")):
             for f in files:
@@ -195,10 +202,9 @@ class LeanSide:
     def _audit(self):
         os.makedirs(os.path.join(LEAN, "Audit"), exist_ok=True)
         path = os.path.join(LEAN, "Audit", f"{self.prop}.lean")
-        body = [f"import XsdataModel.Props.{self.prop}"]
+        body = [f"import XsdataModel.Props.{os.path.basename(p)[:-5]}" for p in self.props_files()]
         for t in self.theorems:
-            q = f"{self.ns}.{t}" if self.ns else t
-            body.append(f"#print axioms {q}")
+            body.append(f"#print axioms {t}")
         with open(path, "w") as f:
             f.write("\n".join(body) + "\n")
         r = subprocess.run(
@@ -210,7 +216,7 @@ class LeanSide:
         for m in re.finditer(r"'([^']+)' does not depend on any axioms", out):
             self.axioms[m.group(1)] = []
         for t in self.theorems:
-            q = f"{self.ns}.{t}" if self.ns else t
+            q = t
             if q not in self.axioms:
                 self.broken.append(f"theorem {q}: axiom audit produced no answer")
             else:
@@ -221,7 +227,7 @@ class LeanSide:
             self.broken.append("forbidden tokens: " + "; ".join(sorted(set(self.forbidden_hits))[:5]))
 
     def leanchecker(self):
-        mods = [f"XsdataModel.Props.{self.prop}"]
+        mods = [f"XsdataModel.Props.{os.path.basename(p)[:-5]}" for p in self.props_files()]
         r = subprocess.run(
             ["lake", "env", "leanchecker"] + mods, cwd=LEAN, capture_output=True, text=True, timeout=3000
         )
